@@ -95,6 +95,14 @@ def generate(rng, tier):
                 text = pre + blk + "\n" + post
                 cases.append({"text": text, "coltype": "two" if two else "default",
                               "meta": {"stream": "inject", "line": rust_nlines(pre) + 1, "bad": bad}})
+    # long rejected lines made of multi-byte characters at every alignment: any byte-indexed truncation or slicing of the offending
+    # line (for an error message, say) falls inside a character for some of them
+    for ctx in ["%s", "statement %s", "statement ok %s", "query %s", "query I rowsort x %s", "control %s", "control sortmode %s", "sleep %s", "hash-threshold %s",
+                "include a %s", "connection a %s", "statement error retry %s backoff 1s", "system ok retry 3 backoff %s", "onlyif a %s x", "subtest a %s"]:
+        for k in range(8):
+            for unit, reps in (("\u00e9", 200), ("\U0001f642", 90), ("a\u00e9\U0001f642\u3000", 40)):
+                tok = "a" * k + unit * reps
+                cases.append({"text": "statement ok\nselect 0\n\n" + (ctx % tok) + "\n" + body, "meta": {"stream": "long-multibyte"}})
     # arbitrary text and fixture mutations
     fixtures = [open(f).read() for f in sorted(glob.glob("/repo/tests/**/*.slt", recursive=True))]
     alphabet = list("abq 1\n\n\t#-") + ["\r", "\0", "\x85", " ", " ", "é", "🙂", "----", "statement ok", "query I", "\r\n", "retry", "error"]
